@@ -4,7 +4,11 @@ Design level: NonceWindow.tla (WindowOK, NewestAccepted, ClosedStaysClosed) exha
 {seal, deliver any earlier datagram again (intact / tampered), tick, rotate}.
 Spec -> impl: every transition of that state graph is executed on real CryptoCore pairs (three ciphers).
 Impl -> spec: the recorded traces (and seeded random histories over all four slots) are validated by TLC against
-Trace_NonceWindow (the accept/reject decision of every delivery must equal the history rule)."""
+Trace_NonceWindow (the accept/reject decision of every delivery must equal the history rule).
+Node level: 2-3 whole mock-backed nodes exchange frames; every sealed datagram of every direction is a seal event, the
+housekeeping round of the receiving node the tick, every arrival (first delivery, delayed, re-injected k = 0..5 rounds
+later from its original source) a deliver event with the decision observed at the node's dispatch; one trace per
+direction, judged by the same Trace_NonceWindow."""
 import os
 import vplib as V
 
@@ -38,9 +42,15 @@ def run(tier, out):
     xp = os.path.join(wd, "trace_session.ndjson")
     nsess, secs = (6, 400) if quick else (60, 900)
     s3 = V.harness_json(["window", "session", nsess, secs, xp])
+    # (E) node level: whole nodes (GenericCloud::housekeep -> crypto_housekeep -> PeerCrypto::every_second for every peer),
+    #     every sealed datagram of every direction, replays 0..5 rounds after the first delivery, delayed datagrams
+    np_ = os.path.join(wd, "trace_node.ndjson")
+    s4 = V.harness_json(["node", "c03", tier, np_], timeout=7200)
+    if s4["rejected"] == 0 or s4["replays"] == 0:
+        raise V.ToolError("C03 node level: no replay was ever rejected (vacuous run)")
     validated = 0
     samples = []
-    for name, path, summ in (("schedules", tp, s1), ("random", rp, s2), ("session", xp, s3)):
+    for name, path, summ in (("schedules", tp, s1), ("random", rp, s2), ("session", xp, s3), ("node", np_, s4)):
         v = V.tlc_trace("Trace_NonceWindow.tla", "Trace_NonceWindow.cfg", PID, path, summ["events"], sub="trace-" + name)
         if v.accepted:
             validated += summ["runs"]
@@ -59,15 +69,17 @@ def run(tier, out):
         "states": d.distinct, "transitions": d.generated, "depth": d.depth,
         "traces_validated_against_impl": validated,
         "samples": [{"schedule": scheds[len(scheds) // 2]}, {"trace_excerpt": evs}],
-        "evaluations": s1["steps"] + s2["steps"] + s3["steps"],
+        "evaluations": s1["steps"] + s2["steps"] + s3["steps"] + s4["steps"],
+        "node_level": {"runs": s4["runs"], "sealed_datagrams": s4["seals"], "deliveries": s4["delivers"], "rejected": s4["rejected"], "replays_injected": s4["replays"]},
         "distinct_nontrivial": len(edges),
         "rule": "every transition of the exhaustive TLC graph of NonceWindow (bounds in %s) executed on real CryptoCore pairs for 3 ciphers; "
                 "%d seeded random histories of length %d over four slots; %d sessions of %d s on real PeerCrypto pairs with rotation and replays 0..5 rounds later; "
-                "distinct = exported transitions" % (cfg, nrand, rlen, nsess, secs),
+                "%d runs of 2-3 whole nodes (%d deliveries incl. %d re-injections 0..5 housekeeping rounds later and delayed datagrams, judged per direction); "
+                "distinct = exported transitions" % (cfg, nrand, rlen, nsess, secs, s4["runs"], s4["delivers"], s4["replays"]),
         "schedules": len(scheds), "exported_transitions": len(edges),
         "self_test": st_desc,
         "checker_cmd": "tlc MC_NonceWindow / Trace_NonceWindow",
     }
     return out.finish("model_checking", cov, assumptions=[
         "AEAD (ring) is treated as perfect: a datagram sealed under another key generation never opens",
-        "ticks are CryptoCore::every_second calls; node-level tick delivery is covered by the node checks"])
+        "object level: ticks are CryptoCore::every_second calls; node level: a tick is the housekeeping round of the receiving node, runs stay below the first key rotation (rotation is covered at session level)"])
